@@ -601,4 +601,142 @@ theorem View.read_eq (v : View) (m : Mem α) (hv : v.lay.WF) (hne : v.lay ≠ []
     rfl
 
 
+/-! ### C05: the view-level operations as list loops, and what the list loops do under the property's quantifier -/
+
+theorem View.assignElements_eq (dst src : View) (m : Mem α) (hd : dst.lay.WF) (hs : src.lay.WF) (hne : dst.lay ≠ [])
+    (hext : dst.exts = src.exts) :
+    dst.assignElements src m =
+      some (copyList (((boxIndices dst.exts).map dst.addr).zip ((boxIndices dst.exts).map src.addr)) m) := by
+  unfold View.assignElements
+  cases hl : dst.lay with
+  | nil => exact absurd hl hne
+  | cons d l => exact ElemRange.assign_ofView dst src m hd hs hext
+
+theorem View.assign_eq (dst src : View) (m : Mem α) (hd : dst.lay.WF) (hs : src.lay.WF) (hne : dst.lay ≠ [])
+    (hext : dst.exts = src.exts) :
+    dst.assign src m =
+      some (copyList (((boxIndices dst.exts).map dst.addr).zip ((boxIndices dst.exts).map src.addr)) m) := by
+  unfold View.assign
+  cases hl : dst.lay with
+  | nil => exact absurd hl hne
+  | cons d l =>
+    simp only [View.ext_eqv_of_exts_eq hext hne, if_true]
+    exact ElemRange.assign_ofView dst src m hd hs hext
+
+theorem View.assignT_eq (dst src : View) (m : Mem α) (hd : dst.lay.WF) (hs : src.lay.WF) (hne : dst.lay ≠ [])
+    (hext : dst.exts = src.exts) :
+    dst.assignT src m =
+      some (copyList (((boxIndices dst.exts).map dst.addr).zip ((boxIndices dst.exts).map src.addr)) m) := by
+  unfold View.assignT
+  cases hl : dst.lay with
+  | nil => exact absurd hl hne
+  | cons d l =>
+    simp only [hext, Exts.eqv_refl, if_true]
+    rw [← hext]
+    exact ElemRange.assign_ofView dst src m hd hs hext
+
+theorem View.assignMoved_eq (moved : α) (dst src : View) (m : Mem α) (hd : dst.lay.WF) (hs : src.lay.WF)
+    (hne : dst.lay ≠ []) (hext : dst.exts = src.exts) :
+    dst.assignMoved moved src m =
+      some (moveList moved (((boxIndices dst.exts).map dst.addr).zip ((boxIndices dst.exts).map src.addr)) m) := by
+  unfold View.assignMoved
+  cases hl : dst.lay with
+  | nil => exact absurd hl hne
+  | cons d l =>
+    simp only [hext, Exts.eqv_refl, if_true]
+    rw [← hext]
+    exact ElemRange.assignMoved_ofView moved dst src m hd hs hext
+
+theorem View.copy_spec (dst src : View) (m : Mem α) (hext : dst.exts = src.exts) (hinj : dst.Injective)
+    (hdis : dst.Disjoint src) :
+    (∀ idx, InBox dst.exts idx →
+      copyList (((boxIndices dst.exts).map dst.addr).zip ((boxIndices dst.exts).map src.addr)) m (dst.addr idx)
+        = m (src.addr idx)) ∧
+    (∀ a, ¬ dst.InImage a →
+      copyList (((boxIndices dst.exts).map dst.addr).zip ((boxIndices dst.exts).map src.addr)) m a = m a) := by
+  have mb := fun i => (mem_boxIndices dst.exts i)
+  obtain ⟨c1, c2⟩ := copyList_spec (boxIndices dst.exts) dst.addr src.addr m (boxIndices_nodup _)
+    (fun i hi j hj h => hinj i j ((mb i).mp hi) ((mb j).mp hj) h)
+    (fun i hi j hj => hdis i j ((mb i).mp hi) (hext ▸ (mb j).mp hj))
+  exact ⟨fun idx hidx => c1 idx ((mb idx).mpr hidx), fun a ha => c2 a (fun hc => ha ((View.mem_addrs_iff dst a).mp hc))⟩
+
+theorem View.move_spec (moved : α) (dst src : View) (m : Mem α) (hext : dst.exts = src.exts) (hinj : dst.Injective)
+    (hsinj : src.Injective) (hdis : dst.Disjoint src) :
+    (∀ idx, InBox dst.exts idx →
+      moveList moved (((boxIndices dst.exts).map dst.addr).zip ((boxIndices dst.exts).map src.addr)) m (dst.addr idx)
+        = m (src.addr idx)) ∧
+    (∀ idx, InBox src.exts idx →
+      moveList moved (((boxIndices dst.exts).map dst.addr).zip ((boxIndices dst.exts).map src.addr)) m (src.addr idx)
+        = moved) ∧
+    (∀ a, ¬ dst.InImage a → ¬ src.InImage a →
+      moveList moved (((boxIndices dst.exts).map dst.addr).zip ((boxIndices dst.exts).map src.addr)) m a = m a) := by
+  have mb := fun i => (mem_boxIndices dst.exts i)
+  obtain ⟨c1, c2⟩ := moveList_spec moved (boxIndices dst.exts) dst.addr src.addr m (boxIndices_nodup _)
+    (fun i hi j hj h => hinj i j ((mb i).mp hi) ((mb j).mp hj) h)
+    (fun i hi j hj h => hsinj i j (hext ▸ (mb i).mp hi) (hext ▸ (mb j).mp hj) h)
+    (fun i hi j hj => hdis i j ((mb i).mp hi) (hext ▸ (mb j).mp hj))
+  refine ⟨fun idx hidx => (c1 idx ((mb idx).mpr hidx)).1, fun idx hidx => (c1 idx ((mb idx).mpr (hext ▸ hidx))).2,
+    fun a ha hb => c2 a (fun hc => ha ((View.mem_addrs_iff dst a).mp hc)) (fun hc => hb ?_)⟩
+  rw [hext] at hc
+  exact (View.mem_addrs_iff src a).mp hc
+
+theorem View.swap_spec (a b : View) (m : Mem α) (hext : a.exts = b.exts) (hainj : a.Injective)
+    (hbinj : b.Injective) (hdis : a.Disjoint b) :
+    (∀ idx, InBox a.exts idx →
+      swapList (((boxIndices a.exts).map a.addr).zip ((boxIndices a.exts).map b.addr)) m (a.addr idx) = m (b.addr idx) ∧
+      swapList (((boxIndices a.exts).map a.addr).zip ((boxIndices a.exts).map b.addr)) m (b.addr idx) = m (a.addr idx)) ∧
+    (∀ x, ¬ a.InImage x → ¬ b.InImage x →
+      swapList (((boxIndices a.exts).map a.addr).zip ((boxIndices a.exts).map b.addr)) m x = m x) := by
+  have mb := fun i => (mem_boxIndices a.exts i)
+  obtain ⟨c1, c2⟩ := swapList_spec (boxIndices a.exts) a.addr b.addr m (boxIndices_nodup _)
+    (fun i hi j hj h => hainj i j ((mb i).mp hi) ((mb j).mp hj) h)
+    (fun i hi j hj h => hbinj i j (hext ▸ (mb i).mp hi) (hext ▸ (mb j).mp hj) h)
+    (fun i hi j hj => hdis i j ((mb i).mp hi) (hext ▸ (mb j).mp hj))
+  refine ⟨fun idx hidx => c1 idx ((mb idx).mpr hidx),
+    fun x ha hb => c2 x (fun hc => ha ((View.mem_addrs_iff a x).mp hc)) (fun hc => hb ?_)⟩
+  rw [hext] at hc
+  exact (View.mem_addrs_iff b x).mp hc
+
+/-! ### C05: storing a sequence of values, flat arrays -/
+
+theorem writeList_zip_not_mem (as : List Int) (vals : List α) (m : Mem α) (a : Int) (h : a ∉ as) :
+    writeList (as.zip vals) m a = m a := by
+  apply writeList_not_mem
+  intro hc
+  obtain ⟨p, hp, rfl⟩ := List.mem_map.mp hc
+  exact h (List.of_mem_zip hp).1
+
+theorem writeList_zip_getElem (as : List Int) (vals : List α) (m : Mem α) (hnd : as.Nodup)
+    (hlen : as.length = vals.length) (k : Nat) (hk : k < vals.length) :
+    writeList (as.zip vals) m (as[k]'(by omega)) = vals[k] := by
+  have hk' : k < (as.zip vals).length := by simp [List.length_zip]; omega
+  have hmem : (as.zip vals)[k] ∈ as.zip vals := List.getElem_mem hk'
+  have := writeList_mem (as.zip vals) m (by rw [List.map_fst_zip (by omega)]; exact hnd) _ hmem
+  simpa [List.getElem_zip] using this
+
+theorem collapse_of_ne_zero (es : List Ext) (h : nElems es ≠ 0) : collapse es = es := by
+  induction es with
+  | nil => rfl
+  | cons e es ih =>
+    simp only [nElems] at h
+    have hsub : nElems es ≠ 0 := by intro h0; rw [h0] at h; simp at h
+    simp only [collapse, h, if_false, ih hsub]
+
+/-- every position of `[0, Π sizes)` is the row-major position of an index tuple of the box -/
+theorem rowMajor_onto (es : List Ext) (hes : ∀ e ∈ es, e.first ≤ e.last) (k : Int) (h0 : 0 ≤ k) (h1 : k < nElems es) :
+    ∃ idx, InBox es idx ∧ rowMajor es idx = k := by
+  have : k ∈ (boxIndices es).map (rowMajor es) := by
+    rw [boxIndices_rowMajor es hes, mem_seqFrom]; omega
+  obtain ⟨idx, hidx, rfl⟩ := List.mem_map.mp this
+  exact ⟨idx, (mem_boxIndices es idx).mp hidx, rfl⟩
+
+/-- index tuples of a concrete 2-D box -/
+theorem inBox_two {f0 l0 f1 l1 : Int} {idx : List Int} (h : InBox [⟨f0, l0⟩, ⟨f1, l1⟩] idx) :
+    ∃ a b, idx = [a, b] ∧ f0 ≤ a ∧ a < l0 ∧ f1 ≤ b ∧ b < l1 := by
+  obtain ⟨a, r, rfl, h1, h2, h3⟩ := inBox_cons h
+  obtain ⟨b, r', rfl, h4, h5, h6⟩ := inBox_cons h3
+  cases r' with
+  | nil => exact ⟨a, b, rfl, h1, h2, h4, h5⟩
+  | cons _ _ => simp [InBox] at h6
+
 end Multi
